@@ -27,7 +27,7 @@ class PoweroffMachine(RPC):
     DEPENDS = ["urn:liberouter:param:netconf:capability:power-control:1.0"]
     
     def request(self):
-        return self._request(new_ele(qualify("poweroff-machine", PC_URN)))
+        return self._request(new_ele_ns("poweroff-machine", PC_URN))
 
 class RebootMachine(RPC):
 
@@ -36,4 +36,4 @@ class RebootMachine(RPC):
     DEPENDS = ["urn:liberouter:params:netconf:capability:power-control:1.0"]
 
     def request(self):
-        return self._request(new_ele(qualify("reboot-machine", PC_URN)))
+        return self._request(new_ele_ns("reboot-machine", PC_URN))
